@@ -1,6 +1,7 @@
 use crate::infra::Ctx;
 pub mod c01;
 pub mod c01real;
+pub mod c02;
 pub mod c08;
 pub mod c09;
 pub mod c18;
@@ -9,6 +10,7 @@ pub mod c18;
 pub fn run(ctx: &Ctx) -> Option<(&'static str, &'static str)> {
     match ctx.id.as_str() {
         "C01" => Some(c01::run(ctx)),
+        "C02" => Some(c02::run(ctx)),
         "C08" => Some(c08::run(ctx)),
         "C09" => Some(c09::run(ctx)),
         "C18" => Some(c18::run(ctx)),
